@@ -239,6 +239,37 @@ Definition process_without_failed_c :=
 Definition process_all_failed_no_trace_c :=
   process_all_failed_no_trace session store body open_session close_session handle handle_fail_frame close_open.
 
+(* ---------- items that only read are as removable as failed ones ---------- *)
+Definition read_only (b : body) : bool :=
+  match b with BGet _ | BReadOnly _ | BOpaqueRO _ => true | _ => false end.
+Definition keep_writing (it : item body) (r : result) : bool := r_ok r && negb (read_only (it_body it)).
+
+Lemma read_only_frame : forall h s p it o s' p',
+    read_only (it_body it) = true -> handle h s p it = (o, s', p') -> s' = s /\ p' = p.
+Proof.
+  unfold handle, lift. intros h s p it o s' p' Hro H.
+  destruct (it_body it); try discriminate; simpl in H.
+  - unfold h_get in H. destruct (fetch (h_user h) tgt p (working s)); inversion H; subst;
+      (split; [apply session_eta|reflexivity]).
+  - destruct (ver_ge (h_ver h) minver); inversion H; subst; (split; [apply session_eta|reflexivity]).
+  - destruct ok; inversion H; subst; (split; [apply session_eta|reflexivity]).
+Qed.
+
+Lemma dropped_frame_c : forall h s p it o s' p',
+    handle h s p it = (o, s', p') -> keep_writing it (mk_result body it o) = false -> s' = s /\ p' = p.
+Proof.
+  unfold keep_writing. intros h s p it o s' p' Hh Hk. simpl in Hk.
+  apply andb_false_iff in Hk. destruct Hk as [Hk|Hk].
+  - destruct o; [discriminate|]. eapply handle_fail_frame; eauto.
+  - apply negb_false_iff in Hk. eapply read_only_frame; eauto.
+Qed.
+
+Lemma kept_ok_c : forall (it : item body) o, keep_writing it (mk_result body it o) = true -> is_ok o = true.
+Proof. unfold keep_writing. intros it o H. simpl in H. apply andb_true_iff in H. tauto. Qed.
+
+Definition process_writing_only_c :=
+  process_kept session store body open_session close_session handle keep_writing dropped_frame_c kept_ok_c.
+
 (* the store after a request is the published state of a clean session *)
 Lemma process_clean : forall st h its rs st',
     process st h its = (inr rs, st') ->
